@@ -178,3 +178,29 @@ Theorem c16_latest_observed_len_ids_refuted :
                  sb_exp s = Some K6 /\ sub_last s = Some K5.
 Proof. exact tracker_latest_observed_len_ids_refuted. Qed.
 Print Assumptions c16_latest_observed_len_ids_refuted.
+
+(* ---- OverrideChannel.WriteLast under a CONCURRENT reader (channel operations as atomic steps) ---- *)
+(* in every state the code can reach, by any interleaving of WriteLast calls, writer steps and reader steps: the writer in
+   progress has an enabled step (it never waits), each of its steps brings it strictly closer to returning, no reader
+   step pushes it back, and it needs three of its own steps at most *)
+Theorem c16_write_last_never_blocks : forall acts c,
+  ch_run false init_chan acts = Some c ->
+  (ch_pc c <> WIdle -> exists c', ch_wstep false c = Some c' /\ (ch_measure c' < ch_measure c)%nat) /\
+  (ch_measure (ch_rstep c) <= ch_measure c)%nat /\ (ch_measure c <= 3)%nat.
+Proof. exact write_last_never_blocks. Qed.
+Print Assumptions c16_write_last_never_blocks.
+
+(* whenever no WriteLast is in progress: the slot holds the value of the last WriteLast that returned, or the reader
+   has taken it and it is the last thing the reader got *)
+Theorem c16_write_last_leaves_latest : forall acts c,
+  ch_run false init_chan acts = Some c -> ch_pc c = WIdle -> ch_obs c = ch_last c.
+Proof. exact write_last_leaves_latest. Qed.
+Print Assumptions c16_write_last_leaves_latest.
+
+(* the single-select variant (try to send, else blocking receive + blocking send): a reachable state in which the writer
+   waits on an empty slot, holding the mutex, for ever *)
+Theorem c16_write_last_blocking_variant_refuted :
+  exists acts c, ch_run true init_chan acts = Some c /\ ch_pc c <> WIdle /\ ch_wstep true c = None /\
+                 (forall n, ch_wstep true (Nat.iter n ch_rstep c) = None).
+Proof. exact write_last_blocking_variant_refuted. Qed.
+Print Assumptions c16_write_last_blocking_variant_refuted.
